@@ -38,18 +38,24 @@ def gen_lg(rng, tier):
     b0 = [Fraction(rng.randint(-8, 8), rng.choice([1, 2, 4])) for _ in range(n)]
     var = [Fraction(rng.randint(1, 12), rng.choice([1, 2, 4])) for _ in range(n)]
     w = {f"{u},{v}": rs(Fraction(rng.randint(-6, 6), rng.choice([1, 2, 3])) or Fraction(1, 2)) for u, v in edges}
-    return {"nodes": names, "edges": [list(e) for e in edges], "order": order, "b0": [rs(x) for x in b0], "var": [rs(x) for x in var], "w": w}
+    return {"nodes": names, "edges": [list(e) for e in edges], "order": order, "b0": [rs(x) for x in b0], "var": [rs(x) for x in var], "w": w,
+            "perm_seed": rng.randrange(10 ** 6)}
 
 
 def build_lg(case):
     from pgmpy.models import LinearGaussianBayesianNetwork
     from pgmpy.factors.continuous import LinearGaussianCPD
+    import random
     names = case["nodes"]
+    prng = random.Random(case.get("perm_seed", 0))
     m = LinearGaussianBayesianNetwork()
     m.add_nodes_from(names)
-    m.add_edges_from([(names[u], names[v]) for u, v in case["edges"]])
+    el = [(names[u], names[v]) for u, v in case["edges"]]
+    prng.shuffle(el)                    # the order in which edges are inserted ...
+    m.add_edges_from(el)
     for v in range(len(names)):
         ps = [u for u, w in case["edges"] if w == v]
+        prng.shuffle(ps)                # ... is unrelated to the order in which a CPD lists its parents
         m.add_cpds(LinearGaussianCPD(names[v], [float(Fraction(case["b0"][v]))] + [float(Fraction(case["w"][f"{u},{v}"])) for u in ps],
                                      float(Fraction(case["var"][v])), [names[u] for u in ps]))
     return m
@@ -190,7 +196,8 @@ def gen_gd(rng, tier):
     n = len(case["nodes"])
     if n < 2:
         return None
-    case["op"] = rng.choice(["marginalize", "reduce", "reduce", "canonical", "product"])
+    case["op"] = rng.choice(["marginalize", "marginalize", "reduce", "reduce", "canonical", "product"])
+    case["prime"] = rng.choice(["none", "none", "precision", "canonical", "copy_precision"])     # what was asked of the object before
     sub = rng.sample(range(n), rng.randint(1, n - 1))
     case["sub"] = sub
     case["vals"] = [rs(Fraction(rng.randint(-8, 8), 2)) for _ in sub]
@@ -211,8 +218,16 @@ def run_gd(case, drv):
     op = case["op"]
     sub = [pos[v] for v in case["sub"]]
     keep = [i for i in range(n) if i not in sub]
-    tags = dict(op=op, n=n, nsub=len(sub))
+    tags = dict(op=op, n=n, nsub=len(sub), prime=case.get("prime", "none"))
     try:
+        # a history on ONE object: reading derived quantities first must not change what later operations return
+        if case.get("prime") == "precision":
+            gd.precision_matrix
+        elif case.get("prime") == "canonical":
+            gd.to_canonical_factor()
+        elif case.get("prime") == "copy_precision":
+            gd.precision_matrix
+            gd = gd.copy()
         if op == "marginalize":
             res = gd.marginalize([vars_[i] for i in sub], inplace=False)
             exp_mean = [mean[i] for i in keep]
@@ -261,6 +276,22 @@ def run_gd(case, drv):
         return fail(f"{op}: mean {rm} vs {exp_mean}", **tags)
     if np.abs(rc - np.asarray(exp_cov)).max() > 1e-6 * max(1, np.abs(exp_cov).max()):
         return fail(f"{op}: covariance {rc.tolist()} vs {exp_cov}", **tags)
+    if op in ("marginalize", "reduce"):
+        # derived quantities of the result must describe the same density: precision = covariance^-1, K = precision, h = K mu
+        inv = drv.call("mat_inverse", a=[[rs(Fraction(x).limit_denominator(10 ** 12)) for x in row] for row in exp_cov])
+        if inv is not None and inv["ok"]:
+            Kx = np.array([[float(Fraction(x)) for x in row] for row in inv["inv"]])
+            cond = float(np.linalg.cond(np.asarray(exp_cov, dtype=float)))
+            tolK = 1e-6 * max(1, np.abs(Kx).max()) + 1e-13 * cond * np.abs(Kx).max()
+            try:
+                pm = np.asarray(res.precision_matrix, dtype=float)
+                cf = res.to_canonical_factor()
+            except Exception as e:
+                return fail(f"{op}: precision_matrix / to_canonical_factor of the result raised {type(e).__name__}: {e}", **tags)
+            if pm.shape != Kx.shape or np.abs(pm - Kx).max() > tolK:
+                return fail(f"{op} (after {case.get('prime')}): precision_matrix of the result {pm.tolist()} is not the inverse of its covariance {Kx.tolist()}", **tags)
+            if np.abs(np.asarray(cf.K, dtype=float) - Kx).max() > tolK:
+                return fail(f"{op} (after {case.get('prime')}): canonical K of the result is not the inverse of its covariance", **tags)
     return ok(nontrivial=len(sub) >= 1, **tags)
 
 
